@@ -69,6 +69,9 @@ pub struct Outcome {
     /// evaluation units in this run (1 unless a family evaluates many cases
     /// per run, e.g. one faulted write per unit)
     pub units: u64,
+    /// the run could not be evaluated for a reason that is the harness's, not
+    /// the code's (exit 2, never a violation)
+    pub harness_error: Option<String>,
 }
 
 impl Outcome {
@@ -84,6 +87,7 @@ impl Outcome {
             sample: None,
             faulty_cfg: false,
             units: 1,
+            harness_error: None,
         }
     }
 }
